@@ -63,6 +63,7 @@ class Sched(object):
         self.preempts = 0
         self.quiet = 0
         self.waiting = {}
+        self.tracebacks = []
 
     # ---- naming --------------------------------------------------------------------------
     def name(self, obj, role):
@@ -448,6 +449,8 @@ class DThread(object):
             except BaseException as e:  # a logical thread died with an exception
                 lt.exc = e
                 if not s.aborting:
+                    import traceback
+                    s.tracebacks.append((lt.name, traceback.format_exc()))
                     s.log.append((lt.name, "thread.died", None, type(e).__name__, s.now))
             finally:
                 lt.done = True
@@ -695,6 +698,7 @@ def run(chooser, main_fn, real_timeout=30.0):
     res.sched = s.sched
     res.deadlock = s.deadlock
     res.waiting = dict(s.waiting)
+    res.tracebacks = list(s.tracebacks)
     res.now = s.now
     res.npoints = s.npoints
     res.preempts = s.preempts
